@@ -4,16 +4,20 @@
  *
  * case:  "<ring> <strict> ; ops ; beh0 | beh1 | ..."   (see ocaml/drv_c14.ml)
  *   ring=0: io_uring_setup is made to fail with ENOSYS (no control ring).
- * ops:   O<sl>,<kind s|p|q|e|t>  U<src>,<dst>  X<sl>      descriptors (slots); t = TCP loopback pair
+ * ops:   O<sl>,<kind s|p|q|e|t>  U<src>,<dst>  X<sl>      descriptors (slots); t = TCP loopback pair,
+ *                                          n = kernel notification file (/proc/sys/kernel/hostname)
  *        K<sl> D<sl> H<sl> G<sl> L<sl>    peer writes / drain / peer closes / fill / unfill
  *        B<sl> W<sl>                      peer sends urgent (OOB) data (t) / peer shutdown(SHUT_WR) (s, t)
  *        I<sl> J<sl>                       uv_poll_init / uv__io_init  (handle = next index)
  *        S<h>,<m> T<h>,<m> C<h> F<h> A<h>  start / stop / close / feed / active
+ *        Y<k>,<sl>                         uv_pipe_open (0) / uv_tcp_open (1) / uv_udp_open (2) of a fresh handle
  *        R                                 uv_run(UV_RUN_NOWAIT)
  * Masks in scripts and poll callbacks: UV_READABLE 1 WRITABLE 2 DISCONNECT 4 PRIORITIZED 8.
  * Output tokens are those of drv_c14.ml; text after '~' inside a token is
  * harness-only (poll(2) results) and is removed before the comparison.
  */
+#define _GNU_SOURCE 1
+#include <sched.h>
 #include <stdio.h>
 #include <stdlib.h>
 #include <string.h>
@@ -88,8 +92,10 @@ static int hindex_of_watcher(uv__io_t* w) {
   for (i = 0; i < nh; i++) if (H[i]->inited && watcher_of(H[i]) == w) return i;
   return -1;
 }
+static int slot_kind_of_fd(int fd);
 static int revents_of(int fd) {
-  struct pollfd p; p.fd = fd; p.events = POLLIN | POLLOUT | POLLPRI | POLLRDHUP; p.revents = 0;
+  struct pollfd p;
+  if (slot_kind_of_fd(fd) == 'n') return -1;   /* its ->poll consumes the notification: do not ask */ p.fd = fd; p.events = POLLIN | POLLOUT | POLLPRI | POLLRDHUP; p.revents = 0;
   if (poll(&p, 1, 0) < 0) return -1;
   return p.revents;
 }
@@ -172,7 +178,7 @@ static void run_beh(void) {
 static void poll_cb(uv_poll_t* p, int status, int events) {
   int i = (int) (intptr_t) p->data;
   if (quiet) return;
-  printf("c%d,%d,%d~%d ", i, status, events, revents_of(H[i]->fd));
+  printf("c%d,%d,%d~%d,%d ", i, status, events, revents_of(H[i]->fd), fcntl(H[i]->fd, F_GETFD) != -1);
   if (status != 0) H[i]->live = 0;     /* UV_EBADF: libuv stopped the handle */
   run_beh();
 }
@@ -195,6 +201,8 @@ static int h_busy(struct hnd* h) {
 static int any_busy(int fd) { int i; for (i = 0; i < nh; i++) if (H[i]->fd == fd && h_busy(H[i])) return 1; return 0; }
 static int any_live(int fd) { int i; for (i = 0; i < nh; i++) if (H[i]->fd == fd && H[i]->inited && !H[i]->closed) return 1; return 0; }
 static int any_live_raw(int fd) { int i; for (i = 0; i < nh; i++) if (H[i]->fd == fd && H[i]->inited && !H[i]->closed && H[i]->kind == 'r') return 1; return 0; }
+static int slot_kind_of_fd(int fd) { int i; for (i = 0; i < MAXS; i++) if (S[i].fd == fd && S[i].f) return S[i].f->kind; return 0; }
+static int fd_exists_in_loop(int fd) { return fd >= 0 && (unsigned) fd < loop.nwatchers && loop.watchers[fd] != NULL; }
 static int fd_is_open(int fd) { int i; for (i = 0; i < MAXS; i++) if (S[i].fd == fd) return 1; return 0; }
 
 static void small_buffers(int fd) {
@@ -239,6 +247,13 @@ static void do_ops(char* ops, int in_cb) {
         }
         else if (k == 'p') { pipe2(sv, O_NONBLOCK); fcntl(sv[1], F_SETPIPE_SZ, 4096); S[a].fd = sv[0]; f->peer = sv[1]; }
         else if (k == 'q') { pipe2(sv, O_NONBLOCK); fcntl(sv[1], F_SETPIPE_SZ, 4096); S[a].fd = sv[1]; f->peer = sv[0]; }
+        else if (k == 'n') {
+          /* a kernel notification file: /proc/sys/kernel/hostname raises POLLIN|POLLERR|POLLPRI
+           * when the host name changes; changed only inside a UTS namespace of our own */
+          static int uts = 0;
+          if (uts == 0) uts = unshare(CLONE_NEWUTS) == 0 ? 1 : -1;
+          S[a].fd = uts == 1 ? open("/proc/sys/kernel/hostname", O_RDONLY | O_NONBLOCK) : -1;
+        }
         else { S[a].fd = eventfd(0, EFD_NONBLOCK); }
         S[a].f = f;
         printf("o%d=%d ", a, S[a].fd);
@@ -265,7 +280,8 @@ static void do_ops(char* ops, int in_cb) {
         printf("~e ");
         switch (tok[0]) {
         case 'K':
-          if (f->kind == 'e') write(S[a].fd, &one, 8);
+          if (f->kind == 'n') { static int cnt; char nm[32]; int n = snprintf(nm, sizeof nm, "c14-%d", ++cnt); sethostname(nm, n); }
+          else if (f->kind == 'e') write(S[a].fd, &one, 8);
           else if (f->kind != 'q' && f->peer != -1) write(f->peer, "x", 1);
           break;
         case 'D':
@@ -292,7 +308,7 @@ static void do_ops(char* ops, int in_cb) {
       break;
     case 'I':
       if (sscanf(tok + 1, "%d", &a) == 1 && a >= 0 && a < MAXS && S[a].fd != -1 && nh < MAXH &&
-          !any_live_raw(S[a].fd) && !(strict && any_live(S[a].fd))) {
+          !(!fd_exists_in_loop(S[a].fd) && any_live_raw(S[a].fd)) && !(strict && any_live(S[a].fd))) {
         int fd = S[a].fd; struct hnd* h = new_handle('p', fd); int rc;
         rc = uv_poll_init(&loop, &h->poll, fd);
         h->poll.data = (void*) (intptr_t) (nh - 1);
@@ -343,6 +359,25 @@ static void do_ops(char* ops, int in_cb) {
       if (sscanf(tok + 1, "%d", &a) == 1 && valid(a)) {
         if (H[a]->kind == 'p') printf("a%d=%d ", a, uv_is_active((uv_handle_t*) &H[a]->poll) ? 1 : 0);
         else printf("a%d=%d ", a, uv__io_active(&H[a]->raw, POLLIN | POLLOUT | UV__POLLRDHUP | UV__POLLPRI) ? 1 : 0);
+      } else printf("- ");
+      break;
+    case 'Y':
+      /* a fresh handle of another kind opened on the descriptor: must be refused (UV_EEXIST)
+       * when a watcher is registered under the number.  When it is accepted the handle is
+       * detached again at once (fd := -1, so that closing it leaves the descriptor alone). */
+      if (sscanf(tok + 1, "%d,%d", &b, &a) == 2 && a >= 0 && a < MAXS && S[a].fd != -1) {
+        int fd = S[a].fd, rc = 0;
+        if (b == 0) {
+          uv_pipe_t* p = calloc(1, sizeof *p); uv_pipe_init(&loop, p, 0);
+          rc = uv_pipe_open(p, fd); p->io_watcher.fd = -1; uv_close((uv_handle_t*) p, close_cb);
+        } else if (b == 1) {
+          uv_tcp_t* p = calloc(1, sizeof *p); uv_tcp_init(&loop, p);
+          rc = uv_tcp_open(p, fd); p->io_watcher.fd = -1; uv_close((uv_handle_t*) p, close_cb);
+        } else {
+          uv_udp_t* p = calloc(1, sizeof *p); uv_udp_init(&loop, p);
+          rc = uv_udp_open(p, fd); p->io_watcher.fd = -1; uv_close((uv_handle_t*) p, close_cb);
+        }
+        printf("y%d@%d=%s ", b, fd, rc == UV_EEXIST ? "E" : ".");
       } else printf("- ");
       break;
     case 'R':
